@@ -16,6 +16,6 @@ def handle (line : String) : String :=
     | none => "bad-op"
   | _ => "bad-op"
 
-def main : IO UInt32 := Driver.runPure handle
-
 end Driver.C32
+
+def main : IO UInt32 := Driver.runPure Driver.C32.handle
